@@ -97,3 +97,12 @@ Theorem C02_crop_window : forall r c s b x1 y1 z1 x2 y2 z2,
     box_eq (denorm_box nb (y2 - y1) (x2 - x1) (z2 - z1)) (lat_box (lat_shift y1 x1 z1) b).
 Proof. intros. apply bbox_crop_lat; assumption. Qed.
 Print Assumptions C02_crop_window.
+
+(* RandomSizedCrop: the box is cut by exactly the window the image path cuts (d_start = 0 on every path) *)
+From DV.proofs Require Import SizedCrop.
+From DV.gen Require Import Gen_cls_crops_dicom.
+Theorem C02_RandomSizedCrop_box_uses_the_image_window : forall sd sh sw b hs ws ch cw cd ip c r s,
+  RandomSizedCrop_apply_to_bbox sd sh sw b hs ws ch cw cd ip c r s =
+  crop_bbox_by_coords b (get_random_crop_coords r c s ch cw cd hs ws 0) ch cw cd r c s.
+Proof. exact RandomSizedCrop_bbox_uses_the_image_window. Qed.
+Print Assumptions C02_RandomSizedCrop_box_uses_the_image_window.
